@@ -273,6 +273,9 @@ func init() {
 		}
 		allocK1(rep, m, r, nS, 0, 0)
 		for i := 0; i < n; i++ {
+			if rep.outOfTime() {
+				break
+			}
 			hseed := r.Int63()
 			hr := rand.New(rand.NewSource(hseed))
 			cfg := gen.PickConfig(hr)
